@@ -94,8 +94,8 @@ Section Search.
     match p_volume_ratio_tolerance par with
     | None => false
     | Some tol =>
-        let hi := vadd O (vlit O 1%float) tol in
-        let lo := vdiv O (vlit O 1%float) hi in
+        let hi := vadd O (vlit O 1 0) tol in
+        let lo := vdiv O (vlit O 1 0) hi in
         let q := vdiv O (shareS C) (shareS T) in
         vltb O hi q || vltb O q lo
     end.
